@@ -63,8 +63,18 @@ def step (d : D) (ws : List String) : D × String :=
         let (m, seq) := recovered P crc32 c k
         s!"{k}:{sites.getD (k - 1) "?"}:{ackedBefore c k}:{digest m seq}:ok")
       (d, String.intercalate " " ("crash" :: toString ks.length :: parts))
+  | ["power"] =>
+    -- component `power`: for every acknowledgement the synced length of every log file and the state recovered from
+    -- exactly the synced bytes (the implementation side reconstructs both from the system-call trace)
+    let c := runWorkload P crc32 d.sync d.mem d.ops.reverse
+    let parts := (ackPositions c).zipIdx.map (fun (k, a) =>
+      let (m, seq) := recoveredPower P crc32 c k
+      let lens := String.intercalate "," ((syncedAt c k).map toString)
+      s!"{a + 1}:{lens}:{digest m seq}")
+    (d, String.intercalate " " ("power" :: toString parts.length :: "-" :: parts))
   | _ => (d, "bad-op")
 
 def component : Component := { σ := D, init := {}, step := step }
+def powerComponent : Component := component
 
 end Driver.CrashDrv
